@@ -25,7 +25,9 @@ RULE = ("forward: the (type tree, value, protocol version, input style) cases of
         "{2,4} x input style {objects, raw ints}, plus Hypothesis-drawn magnitudes beyond each bound; the driver must raise, and "
         "bytes that the reference reads back as a different value are the violation.  varint-boundaries: every +-2^k and "
         "+-2^k+-1, k = 0..130, and 0, as a varint and as the unscaled value of a decimal (exponents 0, -2, 3, -20), bare / in a list / "
-        "as a map key, forward and backward, enumerated completely.  The forward part also feeds timezone-aware datetimes (fixed "
+        "as a map key, forward and backward, enumerated completely.  vint-size-boundaries: vectors (dimension 1-3, every position) of "
+        "variable-width element types (text, ascii, blob, varint, decimal, list, set, map, tuple) holding one element whose encoding is "
+        "exactly 0, 1, 126..129, 255, 256, 16383..16385 or 2^21-1..2^21+1 bytes, forward, backward and round trip.  The forward part also feeds timezone-aware datetimes (fixed "
         "offsets) whose bytes must be those of the UTC instant.  Non-trivial: forward/backward cases whose "
         "encoding is >= 2 bytes and whose value is in a boundary class or whose tree has depth >= 2; every range probe.")
 ASSUMPTIONS = [
@@ -410,6 +412,40 @@ def interpret_varint_boundary(case, ctx):
         _report_diffs(ctx, "C02.backward", tree, pv, value, got, "image %s" % expected.hex()[:80])
 
 
+# ----------------------------------------------------------------------------------------------------------------
+# size prefix of variable-width vector elements at the unsigned-vint boundaries, enumerated
+# ----------------------------------------------------------------------------------------------------------------
+
+def interpret_vint_size(case, ctx):
+    tree, value = _drv.vsb_build(case)
+    pv, feat = case["pv"], "size=%d" % case["size"]
+    ctx.label("vint-size-boundary", "vsb:" + case["etype"], "vsb:" + feat)
+    ctx.nontrivial(True)
+    with ctx.driver(["C02.build", "direct", "vector"]):
+        typ = _drv.build_type(tree)
+    if ctx._failures:
+        return
+    expected = V.encode(tree, value, pv)
+    data = None
+    with ctx.driver(["C02.forward.encode", "vector-element-size", feat]):
+        data = typ.to_binary(_drv.to_driver(tree, value, 0), pv)
+    if data is not None and data != expected:
+        i = next((j for j in range(min(len(data), len(expected))) if data[j] != expected[j]), min(len(data), len(expected)))
+        ctx.fail(["C02.forward", "vector-element-size", feat], "%s with an element of %d bytes at %d: driver wrote ...%s..., Cassandra writes ...%s... (offset %d)" % (
+            V.cql_name(tree), case["size"], case["pos"], data[max(0, i - 2):i + 6].hex(), expected[max(0, i - 2):i + 6].hex(), i))
+    for sub, image in (("C02.backward", expected), ("C02.roundtrip", data)):
+        if image is None or (sub == "C02.roundtrip" and image == expected):
+            continue
+        got, before = None, len(ctx._failures)
+        try:
+            with ctx.driver([sub + ".decode", "vector-element-size", feat], expect=(V.NormaliseError,)):
+                got = _drv.from_driver(tree, typ.from_binary(image, pv))
+        except V.NormaliseError as e:
+            ctx.fail([sub + ".type", "vector-element-size", feat], str(e)[:300])
+        if len(ctx._failures) == before and not V.same(tree, value, got):
+            ctx.fail([sub, "vector-element-size", feat], "%s with an element of %d bytes does not decode to the value sent" % (V.cql_name(tree), case["size"]))
+
+
 def parts(tier):
     q = tier == "quick"
     return [
@@ -422,5 +458,6 @@ def parts(tier):
                  quick=400, thorough=4000, quick_shards=3, thorough_shards=16),
         EnumPart("probes", _PROBE_CHUNKS, probe_cases, interpret_probe),
         EnumPart("varint-boundaries", _VB_CHUNKS, varint_boundary_cases, interpret_varint_boundary),
+        EnumPart("vint-size-boundaries", _drv.vsb_chunks(), _drv.vsb_cases, interpret_vint_size),
         hyp_part("range", s_random_range, interpret_probe, tier, quick=300, thorough=3000, quick_shards=1, thorough_shards=4),
     ]
